@@ -126,8 +126,8 @@ Step ==
             IF ~fileGone THEN Fail("returned-without-finishing-the-run-loop")
             ELSE IF fills # K + 1 THEN Fail("not-every-step-filled")
             ELSE IF ~e.orderOK THEN Fail("results-not-in-register-order")
-            ELSE IF ~e.timesOK THEN Fail("result-times-differ-from-uninterrupted-run")
-            ELSE IF ~e.valuesOK THEN Fail("result-values-differ-from-uninterrupted-run")
+            ELSE IF ~e.timesOK THEN Fail("result-times-differ-from-reference")
+            ELSE IF ~e.valuesOK THEN Fail("result-values-differ-from-reference")
             ELSE /\ returned' = TRUE /\ Ok
                  /\ UNCHANGED <<N, K, mode, ts, pair, single, fillsInStep, fills, lastSave, crashed, resumed, fileGone, hOK, sweepsInStep, rowTs>>
        [] OTHER -> Fail("unknown-event")
